@@ -166,6 +166,8 @@ class Rig:
                 raise
             finally:
                 self.events.append(["end", nid, self.clock()])
+            if node.get("ret") is not None:
+                return self.handles[node["ret"]]   # the action hands back the disposable of follow-up work it scheduled
             return None
 
         return action
